@@ -343,7 +343,7 @@ let () =
         | M.Inl i ->
           let k = int_of_nat i in
           let (l, s, _) = List.nth evs k in
-          mismatch l s (Printf.sprintf "slice lock %s: event %d breaks the lock discipline (a write without the lock held exclusively, a read without it held)" !tag k)));
+          mismatch l s (Printf.sprintf "slice lock %s: event %d breaks the lock discipline (a write without the lock held exclusively, a read without it held, a read lock taken again by a thread that holds it)" !tag k)));
     lkbuf := [])
 
 (* ---------------- barrier wake-up (coq/SliceBarrier.v) ---------------- *)
